@@ -922,6 +922,160 @@ example : (refreshStorageCancel
       some 9 := by
   decide
 
+/-! ## The decoded index: `NewID`, `validate`, `compare`, the sort, and the names of the cache files -/
+
+/-- **raw_sort_irrelevant.** `loadIndex` as it is — `slices.SortStableFunc` with
+`indexRespFilter.compare` (nil entries last, keys by `cmp.Compare` on the strings), then `validate`
+/ `NewID` / `ParseHTTPURL` per entry — yields for the loops of `Default.refresh` exactly what the
+document order yields: for every decoded document, whatever keys (valid, invalid, reserved,
+duplicated), URLs and `null`s it holds.  (`index_order_irrelevant` said this for an abstract rank;
+here the comparison is the code's.) -/
+theorem raw_sort_irrelevant (E : Env) (cfg : Cfg) (R : Round) (s : St) (fx : Bool)
+    (num : List Nat → Nat) (es : List RawEntry) (hinj : KeysInj num es) :
+    newLists E cfg R s (loadRaw fx num es) = newLists E cfg R s (es.map (classify fx num)) :=
+  newLists_reorder E cfg R s (reorder_sortRaw fx num es hinj)
+
+/-- **raw_round_order_irrelevant.** The same for a whole round, and hence (by `run`) for every
+history: an environment whose index documents go through `loadIndex`'s sort and one whose documents
+are read in document order give the same state and the same return value.  All theorems above, which
+are stated for arbitrary `Env.idx`, therefore hold for the decoded documents as the code reads them. -/
+theorem raw_round_order_irrelevant (E : Env) (cfg : Cfg) (s : St) (R : Round) (fx : Bool)
+    (num : List Nat → Nat) (raw : Nat → Option (List RawEntry))
+    (hinj : ∀ c es, raw c = some es → KeysInj num es) :
+    refreshStorage { E with idx := fun c => (raw c).map (loadRaw fx num) } cfg s R =
+      refreshStorage { E with idx := fun c => (raw c).map (List.map (classify fx num)) } cfg s R := by
+  have hE : ∀ (f g : Nat → Option (List Entry)) max a d fr x,
+      refresh { E with idx := f } max a d fr x = refresh { E with idx := g } max a d fr x :=
+    fun _ _ _ _ _ _ _ => rfl
+  have hN : ∀ (f g : Nat → Option (List Entry)) es,
+      newLists { E with idx := f } cfg R s es = newLists { E with idx := g } cfg R s es :=
+    fun _ _ _ => rfl
+  have hS : ∀ (f g : Nat → Option (List Entry)) c,
+      svcResult { E with idx := f } cfg c = svcResult { E with idx := g } cfg c := fun _ _ _ => rfl
+  unfold refreshStorage
+  simp only [hE _ (fun c => (raw c).map (List.map (classify fx num))),
+    hS _ (fun c => (raw c).map (List.map (classify fx num)))]
+  cases h1 : (refresh { E with idx := fun c => (raw c).map (List.map (classify fx num)) } cfg.idxMax
+      R.acceptStale s.idxDisk R.idxFresh R.idxResp).1 with
+  | none => rfl
+  | some d =>
+    cases h2 : raw d with
+    | none => simp [h2]
+    | some es =>
+      have hr := raw_sort_irrelevant { E with idx := fun c => (raw c).map (List.map (classify fx num)) }
+        cfg R s fx num es (hinj d es h2)
+      simp [h2, hN _ (fun c => (raw c).map (List.map (classify fx num))), hr]
+
+/-- **sort_raw_spec.** The sort is a sort: its result is ordered by `compare` and is a permutation
+of the document (entries that compare equal keep their document order by construction: `insertRaw`
+moves an entry only in front of strictly greater ones). -/
+theorem sort_raw_spec (es : List RawEntry) : RawSorted (sortRaw es) ∧ (sortRaw es).Perm es :=
+  ⟨sortRaw_sorted es, sortRaw_perm es⟩
+
+def rawDoc : List RawEntry :=
+  [⟨false, bytes "listb", false, true, 2⟩, ⟨true, [], true, false, 0⟩,
+   ⟨false, bytes "bad key", false, true, 3⟩, ⟨false, bytes "lista", true, false, 0⟩,
+   ⟨false, bytes "services.json", false, true, 4⟩, ⟨false, bytes "lista", false, true, 1⟩]
+
+/-- Non-vacuity: the sort moves entries (the `null` last, `bad key` first), keeps the two `lista`
+entries in document order, and numbering keys by their bytes as base-256 digits is faithful here. -/
+example : (sortRaw rawDoc).map (·.key) =
+    [bytes "bad key", bytes "lista", bytes "lista", bytes "listb", bytes "services.json", []] := by
+  decide
+example : ((sortRaw rawDoc).map (·.urlEmpty)) = [false, true, false, false, false, true] := by decide
+example : KeysInj (fun k => k.foldl (fun a b => a * 256 + b) 0) rawDoc := by
+  unfold KeysInj rawDoc; decide
+
+/-- **id_valid_iff.** `filter.NewID` accepts exactly the keys of 1 to 128 bytes that are all
+printable, non-blank ASCII other than a slash. -/
+theorem id_valid_iff (k : List Nat) :
+    idValid k = true ↔ 1 ≤ k.length ∧ k.length ≤ 128 ∧ ∀ b ∈ k, 0x21 ≤ b ∧ b ≤ 0x7e ∧ b ≠ 0x2f := by
+  simp [idValid, idByteOk, List.all_eq_true, and_assoc]
+
+example : idValid (List.replicate 128 0x7e) = true := by simp [idValid, idByteOk]
+example : idValid (List.replicate 129 0x7e) = false := by simp [idValid]
+example : idValid [] = false ∧ idValid [0x20] = false ∧ idValid [0x7f] = false ∧
+    idValid [0x21] = true ∧ idValid (bytes "a/b") = false ∧ idValid (bytes "services.json") = true := by
+  decide
+
+/-- **accepted_key_names_private_file** (the repaired behaviour).  An entry that `toInternal` lets
+through names a cache file of its own: a single path component that is neither the directory, its
+parent, an index file nor the file of a safe-search or hash-prefix filter. -/
+theorem accepted_key_names_private_file (num : List Nat → Nat) (e : RawEntry)
+    (hk : (classify true num e).keyOk = true) (hu : (classify true num e).urlOk = true) :
+    ruleListFile e.key ∉ reservedNames ∧ ruleListFile e.key ≠ indexFile ∧
+      ruleListFile e.key ≠ servicesFile ∧ e.key ≠ [] ∧ 0x2f ∉ e.key := by
+  simp [classify] at hk hu
+  have hres : e.key ∉ reservedNames := by simpa using hu.2
+  have hv := (id_valid_iff e.key).mp hk.2
+  refine ⟨hres, ?_, ?_, ?_, ?_⟩
+  · intro h; apply hres; rw [show e.key = indexFile from h]; decide
+  · intro h; apply hres; rw [show e.key = servicesFile from h]; decide
+  · intro h; rw [h] at hv; simp at hv
+  · intro h; exact (hv.2.2 _ h).2.2 rfl
+
+/-- **rule_lists_never_touch_reserved_files** (the repaired behaviour).  Whatever the index
+document holds and whatever the downloads yield, the rule-list downloads of a round leave the index
+files and the files of the safe-search and hash-prefix filters alone — which is what lets `St` keep
+`filters.json`, `services.json` and the rule-list files in separate slots. -/
+theorem rule_lists_never_touch_reserved_files (got : RawEntry → Option Nat) (d : Dir)
+    (es : List RawEntry) (n : List Nat) (hn : n ∈ reservedNames) :
+    writeLists true got d es n = d n := by
+  unfold writeLists
+  apply foldl_inv (fun d' : Dir => d' n = d n)
+  · rfl
+  · intro d' e _ hd'
+    by_cases hv : ((classify true (fun _ => 0) e).keyOk && (classify true (fun _ => 0) e).urlOk) = true
+    · simp only [hv, if_true]
+      cases hg : got e with
+      | none => exact hd'
+      | some x =>
+        simp only [Dir.write]
+        have hne : n ≠ ruleListFile e.key := by
+          intro h
+          simp only [Bool.and_eq_true] at hv
+          exact (accepted_key_names_private_file (fun _ => 0) e hv.1 hv.2).1 (h ▸ hn)
+        simp [hne, hd']
+    · simp only [hv]
+      exact hd'
+
+/-- **reserved_key_overwrites_services_counterexample.** On the tree as found
+(`rejectReserved = false`) `validate` lets an entry with the key `services.json` through — it is a
+valid ID —, and the download of "its" rule list replaces the blocked-service index in the cache
+directory by the rule list; on the repaired tree the file stays. -/
+theorem reserved_key_overwrites_services_counterexample :
+    let e : RawEntry := ⟨false, bytes "services.json", false, true, 4⟩
+    let d : Dir := fun n => if n = servicesFile then some 2 else none
+    (classify false (fun _ => 0) e).keyOk = true ∧ (classify false (fun _ => 0) e).urlOk = true ∧
+      writeLists false (fun _ => some 9) d [e] servicesFile = some 9 ∧
+      writeLists true (fun _ => some 9) d [e] servicesFile = some 2 := by
+  decide
+
+/-- **foreign_services_file_stops_every_start.** … and with a file in `services.json` that is not a
+service index (here: the rule list written there), every start fails whatever the servers do — no
+list at all is served — until someone removes the file.  (The harness shows both steps on the real
+code under `cache-file-overwritten-by-other-list` / `restart-fails-on-complete-cache`.) -/
+theorem foreign_services_file_stops_every_start (E : Env) (cfg : Cfg) (s : St) (R : Round) (c : Nat)
+    (hen : cfg.svcEnabled = true) (hacc : R.acceptStale = true) (hd : s.svcDisk = some c)
+    (hlen : E.len c ≠ 0) (hsvc : E.svc c = none) :
+    (refreshStorage E cfg (restart s) R).2 = false ∧
+      ∀ k, (refreshStorage E cfg (restart s) R).1.rl k = none := by
+  have hff : fromFile E true R.svcFresh (some c) = some c := by simp [fromFile, hlen]
+  have hsr : refresh E cfg.svcMax true (some c) R.svcFresh R.svcResp = (some c, some c) := by
+    simp [refresh, hff]
+  have hres : svcResult E cfg c ≠ .ok := by simp [svcResult, hsvc]
+  unfold refreshStorage
+  simp only [restart, hacc, hd, hen]
+  cases h1 : (refresh E cfg.idxMax true s.idxDisk R.idxFresh R.idxResp).1 with
+  | none => simp
+  | some dd =>
+    cases h2 : E.idx dd with
+    | none => simp [h2]
+    | some es => simp [h2, hsr, hres]
+
+example : (refreshStorage nullEnv (nullCfg true) (restart { St.empty with svcDisk := some 9 })
+    (nullRound true)).2 = false := by decide
+
 end Agd.Refresh
 
 #print axioms Agd.Refresh.failed_download_keeps_previous
@@ -958,6 +1112,14 @@ end Agd.Refresh
 #print axioms Agd.Refresh.take_filter_prefix
 #print axioms Agd.Refresh.addUntilCancel_prefix
 #print axioms Agd.Refresh.cancelled_round_safe
+#print axioms Agd.Refresh.raw_sort_irrelevant
+#print axioms Agd.Refresh.raw_round_order_irrelevant
+#print axioms Agd.Refresh.sort_raw_spec
+#print axioms Agd.Refresh.id_valid_iff
+#print axioms Agd.Refresh.accepted_key_names_private_file
+#print axioms Agd.Refresh.rule_lists_never_touch_reserved_files
+#print axioms Agd.Refresh.reserved_key_overwrites_services_counterexample
+#print axioms Agd.Refresh.foreign_services_file_stops_every_start
 #print axioms Agd.Tie.TrC13.translation_complete
 #print axioms Agd.Tie.TrC13.cleanup_or_replace
 #print axioms Agd.Tie.TrC13.replace_only_after_complete_download
